@@ -217,6 +217,11 @@ Inductive verdict : Type := Holds | NA | Fails (class : N).
    1  an outpoint is added again with a different owner (the builder keeps counting the first owner's key)
    2  one script is supplied inline by one item and by reference by another (it ends up available twice)
    3  genesis key delegation: the builder counts the delegate hash, the genesis key signs ([known_genesis]) *)
+(* the prediction as it would be with the genesis hash counted instead of the delegate hash *)
+Definition genesis_corrected (t : tx_ops) (o : obs) : obs :=
+  {| o_predicted := o_predicted o + vkeys_field_size (N.of_nat (length (needed_vkeys_gen true true true true t)))
+                    - vkeys_field_size (N.of_nat (length (needed_vkeys_gen true true true false t)));
+     o_signed := o_signed o; o_emitted := o_emitted o |}.
 Definition judge (t : tx_ops) (o : obs) : verdict :=
   if negb (wits_match t) then NA
   else
@@ -226,9 +231,12 @@ Definition judge (t : tx_ops) (o : obs) : verdict :=
     let once_ok := scripts_not_twice t (o_emitted o) || negb (collateral_plain t) in
     if size_ok && avail_ok && once_ok then Holds
     else if negb consistent then Fails 1
-    else if avail_ok && once_ok && known_genesis t then Fails 3
-    else if size_ok && avail_ok && negb (no_mixed_supply t) then Fails 2
-    else Fails 0.
+    else
+      (* each failing clause must be explained by its known class *)
+      let size_explained := size_ok || (known_genesis t && size_clause (genesis_corrected t o)) in
+      let once_explained := once_ok || negb (no_mixed_supply t) in
+      if size_explained && avail_ok && once_explained then (if size_ok then Fails 2 else Fails 3)
+      else Fails 0.
 
 (* ---------- what the driver prints for a case ---------- *)
 Record model_out : Type := {
